@@ -5,7 +5,7 @@ import threading
 import time
 
 from . import pool, tlc
-from .common import NCPU, Report, ToolError, build_harness, log, seed, workdir
+from .common import NCPU, Report, ToolError, build_harness, log, seed, workdir, replay_witness
 from .props_bf import population, dev_pops
 
 NOASLR = ["setarch", "x86_64", "-R"]      # machine code embeds the absolute addresses of the runtime shims
@@ -72,6 +72,10 @@ def c13(tier):
         for level in ((1, 2, 3) if c["pop"] != "nest" else (0, 1, 2, 3)):
             reqs.append({"op": "compile", "id": "%s|%d|%d" % (c["id"], c["w"], level), "prog": c["prog"], "w": c["w"],
                          "level": level, "input": c["input"], "execute": halts})
+    rw = replay_witness()
+    if rw and "prog" in rw and "level" in rw:
+        reqs = [{"op": "compile", "id": "replay|%d|%d" % (rw["w"], rw["level"]), "prog": rw["prog"], "w": rw["w"],
+                 "level": rw["level"], "input": [], "execute": 0}]
     nproc = 4 if tier == "quick" else 8
     out = [None] * nproc
     threads = []
